@@ -1,5 +1,107 @@
-(* STUB: Spec layer for cedt -- to be written *)
-From Coq Require Import NArith List.
-From ACPI Require Import Lib.Bytes Lib.Sx Spec.Layout.
+(* Spec layer for the CEDT (CXL Early Discovery Table, CXL 3.0 9.17.1), written from SPEC_NOTES.md A.0 / A.2
+   (table revision 1 is crate-defined).
+   Case vocabulary (shared with Impl/Cedt.v and harness/src/t_cedt.rs), component 20; every op reports 0:
+     ctor  (oem6 tbl8 orev)
+     ops   (1 uid version base)                                      add_host_bridge(CxlHostBridge::new(uid, version, base))
+           (2 base size arith gran ways qtg (builder ...) (target ...))
+                                                                     add_fixed_memory(CxlFixedMemory::new(base, size, arith, gran, ways, qtg)
+                                                                       .builder()... ; add_target(t)...)
+           (3 gran (xormap ...))                                     add_xor_interleave_math(XorInterleaveMath::new(gran); add_xormap(x)...)
+           (4 segment bus device function protocol base)             add_port_association(PortAssociation::new(..))
+     version  CxlVersion:            0 Cxl1_1, 1 Cxl2
+     arith    InterleaveArithmetic:  0 Modulo, 1 ModuloXor
+     gran     InterleaveGranularity: 0 256b, 1 512b, 2 1kb, 3 2kb, 4 4kb, 5 8kb, 6 16kb            (HBIG)
+     ways     InterleaveWays, numbered by the encoded value (ENIW): 0 Ways1, 1 Ways2, 2 Ways4, 3 Ways8, 4 Ways16, 8 Ways3, 9 Ways6, 10 Ways12
+     builder  (1) cxl_type_2_memory  (2) cxl_type_3_memory  (3) volatile  (4) persistent  (5) fixed_configuration
+              applied in the order given, repetitions allowed
+     target   4 bytes ([u8; 4]);  xormap = u64
+     protocol ProtocolType:          0 CxlIo, 1 CxlMem
+   Out of the domain (ts_image = None): number of targets <> number of ways, more than 255 xormaps, device >= 32, function >= 8. *)
+From Coq Require Import NArith List Bool Arith.
+From ACPI Require Import Lib.Bytes Lib.Sx Spec.Layout Spec.RimtS.
 Import ListNotations.
-Definition cedt_spec : tspec := null_spec.
+Open Scope N_scope.
+
+(* ENIW <-> number of ways: 0,1,2,3,4,8,9,10 <-> 1,2,4,8,16,3,6,12 *)
+Definition cedt_ways (eniw : N) : option nat :=
+  match eniw with
+  | 0 => Some 1%nat | 1 => Some 2%nat | 2 => Some 4%nat | 3 => Some 8%nat | 4 => Some 16%nat
+  | 8 => Some 3%nat | 9 => Some 6%nat | 10 => Some 12%nat
+  | _ => None
+  end.
+
+(* was builder [k] invoked at least once? *)
+Definition cedt_invoked (k : N) (builders : list sx) : bool :=
+  existsb (fun b => match b with SL [SA k'] => k' =? k | _ => false end) builders.
+
+(* 32+2 Restrictions: b0 type-2, b1 type-3, b2 volatile, b3 persistent, b4 fixed config *)
+Definition cedt_restrictions (builders : list sx) : N :=
+  (if cedt_invoked 1 builders then 1 else 0) + (if cedt_invoked 2 builders then 2 else 0) + (if cedt_invoked 3 builders then 4 else 0)
+  + (if cedt_invoked 4 builders then 8 else 0) + (if cedt_invoked 5 builders then 16 else 0).
+
+Definition cedt_builders_ok (builders : list sx) : bool :=
+  forallb (fun b => match b with SL [SA k] => (1 <=? k) && (k <=? 5) | _ => false end) builders.
+
+Definition cedt_target (t : sx) : option (list N) :=
+  match sx_bytes t with Some b => if Nat.eqb (length b) 4 then Some b else None | None => None end.
+
+Definition cedt_entry_ref (o : sx) : option (list N) :=
+  match o with
+  | SL [SA 1; SA uid; SA ver; SA base] =>
+      (* 0 CHBS (32): 4+4 UID, 8+4 CXLVersion (0: 1.1, 1: 2.0), 12+4 res, 16+8 Base, 24+8 Length (0x2000 | 0x10000) *)
+      match (match ver with 0 => Some 0x2000 | 1 => Some 0x10000 | _ => None end) with
+      | Some len => lay 32 [L 0 1 0; L 1 1 0; L 2 2 32; L 4 4 uid; L 8 4 ver; L 12 4 0; L 16 8 base; L 24 8 len]
+      | None => None
+      end
+  | SL [SA 2; SA base; SA size; SA arith; SA gran; SA ways; SA qtg; SL builders; SL targets] =>
+      (* 1 CFMWS (36 + 4 NIW): 4+4 res, 8+8 BaseHPA, 16+8 WindowSize, 24 ENIW, 25 Arithmetic, 26+2 res, 28+4 HBIG,
+         32+2 Restrictions, 34+2 QTG ID, 36 targets (4 each); the number of targets is the number of ways *)
+      match cedt_ways ways, sp_all cedt_target targets [] with
+      | Some niw, Some tg =>
+          if Nat.eqb (length tg) niw && cedt_builders_ok builders then
+            option_map (fun h => h ++ concat tg)
+              (lay 36 [L 0 1 1; L 1 1 0; L 2 2 (N.of_nat (36 + 4 * niw)); L 4 4 0; L 8 8 base; L 16 8 size; L 24 1 ways; L 25 1 arith;
+                       L 26 2 0; L 28 4 gran; L 32 2 (cedt_restrictions builders); L 34 2 qtg])
+          else None
+      | _, _ => None
+      end
+  | SL [SA 3; SA gran; SL maps] =>
+      (* 2 CXIMS (8 + 8n): 4+2 res, 6 HBIG, 7 n, 8 xormaps u64 *)
+      match sx_nums maps with
+      | Some ms =>
+          let n := length ms in
+          if N.of_nat n <=? 255 then
+            option_map (fun h => h ++ concat (map (le 8) ms))
+              (lay 8 [L 0 1 2; L 1 1 0; L 2 2 (N.of_nat (8 + 8 * n)); L 4 2 0; L 6 1 gran; L 7 1 (N.of_nat n)])
+          else None
+      | None => None
+      end
+  | SL [SA 4; SA seg; SA bus; SA dev; SA fn; SA proto; SA base] =>
+      (* 3 RDPAS (17 as laid out): 4+2 Segment, 6+2 BDF, 8 Protocol (0 IO, 1 mem), 9+8 Base; length field = bytes written *)
+      match sp_bdf bus dev fn with
+      | Some b => lay 17 [L 0 1 3; L 1 1 0; L 2 2 17; L 4 2 seg; L 6 2 b; L 8 1 proto; L 9 8 base]
+      | None => None
+      end
+  | _ => None
+  end.
+
+Definition cedt_entries_ref (ops : list sx) : option (list (list N)) := sp_all cedt_entry_ref ops [].
+
+(* structures from 36 *)
+Definition cedt_image (ctor : sx) (ops : list sx) : option (list N) :=
+  match ctor with
+  | SL [o; t; r] =>
+      match sx_hdr_args o t r, cedt_entries_ref ops with
+      | Some h, Some es => Some (ref_table [67; 69; 68; 84] 1 h (concat es))
+      | _, _ => None
+      end
+  | _ => None
+  end.
+
+Definition cedt_spec : tspec := {|
+  ts_image := cedt_image;
+  ts_walk := Some (36%nat, H_u8_x_u16);
+  ts_entries := fun _ ops => option_map (map (fun e => (nth 0 e 0, length e))) (cedt_entries_ref ops);
+  ts_counts := fun _ => [];
+  ts_returns := fun _ => false
+|}.
